@@ -106,9 +106,13 @@ fn connect_scenario(name: String, params: Value) -> Scenario {
             0 => {
                 // CONNACK with every reason x property set x session present
                 let reason = CONNECT_REASONS[chz.choose(CONNECT_REASONS.len())];
-                let props = match chz.choose(6) {
+                let props = match chz.choose(7) {
                     0 => vec![],
                     1 => rich.clone(),
+                    // (the documented assertion about Subscription Identifiers Available = 0 concerns
+                    // successful CONNACKs; a refusal carrying it is reported like any other refusal)
+                    6 if reason >= 0x80 => vec![Prop::byte(P_SUB_ID_AVAILABLE, 0), Prop::str(P_REASON_STRING, "no")],
+                    6 => vec![Prop::byte(P_SUB_ID_AVAILABLE, 1)],
                     3 => full_connack_props(0),
                     4 => full_connack_props(1),
                     5 => full_connack_props(2),
